@@ -35,6 +35,7 @@ var ops = []opDef{
 	{"logand", "(OBit BAnd)", 0, 4, true, false}, {"logior", "(OBit BOr)", 0, 4, true, false},
 	{"logxor", "(OBit BXor)", 0, 4, true, false}, {"lognot", "OLognot", 1, 1, true, false},
 	{"max", "(OExt true)", 1, 4, false, false}, {"min", "(OExt false)", 1, 4, false, false},
+	{"isqrt", "OIsqrt", 1, 1, true, false},
 }
 
 func gVal(o slip.Object) (string, string) {
@@ -293,6 +294,30 @@ func Run(ctx *common.Ctx) {
 			}
 		}
 	}
+	// isqrt, systematically: every grid value as a fixnum / bignum literal and as a bignum OBJECT (small values
+	// included), perfect squares of every size with their neighbours, and 2^k for k up to 200: the operand is
+	// a variable re-read after the call (big.Int.Sqrt writes into its receiver)
+	for _, op := range ops {
+		if op.lisp != "isqrt" {
+			continue
+		}
+		var zs []*big.Int
+		zs = append(zs, grid...)
+		for _, k := range []uint{1, 5, 16, 26, 31, 32, 33, 40, 50, 63, 64, 65, 100} {
+			sq := new(big.Int).Mul(pow2(k), pow2(k))
+			r := new(big.Int).Add(pow2(k), big.NewInt(int64(ctx.Rng.Intn(1000))))
+			zs = append(zs, sq, new(big.Int).Sub(sq, big.NewInt(1)), new(big.Int).Add(sq, big.NewInt(1)), new(big.Int).Mul(r, r),
+				new(big.Int).Sub(new(big.Int).Mul(r, r), big.NewInt(1)), pow2(2*k+1))
+		}
+		zs = append(zs, new(big.Int).Exp(big.NewInt(10), big.NewInt(20), nil), new(big.Int).Exp(big.NewInt(10), big.NewInt(40), nil))
+		for _, z := range zs {
+			ctx.Hist("operands:isqrt-grid")
+			runCase(op, []string{lit(z)})
+			if z.IsInt64() && z.BitLen() < 52 {
+				runCase(op, []string{fmt.Sprintf("(+ %s 100000000000000000000 -100000000000000000000)", z.String())})
+			}
+		}
+	}
 	// comparison chains, systematically: every ratio r of a spread of positive and negative ratios (small,
 	// large denominators, bignum numerators whose integer neighbours are fixnums, the extreme fixnums or
 	// bignums) x every integer n in {floor r - 1, floor r, ceiling r, ceiling r + 1} x every comparison operator
@@ -420,10 +445,99 @@ func Run(ctx *common.Ctx) {
 			ctx.Violate("ash of a fixnum is not floor(x * 2^shift)", prog, got, want.String())
 		}
 	}
+	operandsUnchanged(ctx)
 	ctx.Meta.DistinctNontrivial = len(distinct)
-	ctx.Meta.Rule = "operator from {+ - * / floor ceiling truncate round mod rem abs 1+ 1- gcd lcm < <= > >= = logand logior logxor lognot max min} x 1..3 operands (1..4 for max min) (0..4 for logand logior logxor, 60% of them drawn from a mix of small fixnums of both signs, random 64-bit fixnums, the grid, +-2^k+-j for k in 64..133, and the general integers, each position independently, so negative fixnums occur before and after the first bignum) plus, for every two-operand operator, ALL pairs of the boundary values {0,+-1,+-2,3,2^32,+-2^62,2^63-1,-2^63,2^63,-2^63-1,2^64} (thorough: of the whole grid) and for / floor ceiling truncate round mod rem gcd lcm ALL pairs from -7..7 x -4..4; plus, for every comparison operator and for max and min, every ratio of a spread of 28 positive and negative ratios (bignum numerators included; thorough: 60 random ones more) with each of the integers floor-1, floor, ceiling, ceiling+1 in both orders, as a pair and at both positions of a three-operand chain; plus 300 (thorough 3000) incf/incf/decf sequences on integer places and deltas and as many (ash fixnum shift) calls with shift in -70..70, both checked against math/big directly; operands drawn from the boundary grid {0,+-1,+-2,+-3,+-7,+-10,+-2^e,+-(2^e-1),+-(2^e+1) for e in 31,32,62,63,64} (40%), small integers, random 64-bit and random <=200-bit integers, ratios of those (30% for operators that take them), bignum objects holding small values, and in 55% of the cases operands derived from the first one (equal, negated, +-1, small multiples and exact quotients, multiple plus small remainder, exact half-way points, the integers around a ratio, +1/2); distinct = distinct (operator, operand representations) tuples, all non-trivial"
+	ctx.Meta.Rule = "operator from {+ - * / floor ceiling truncate round mod rem abs 1+ 1- gcd lcm < <= > >= = logand logior logxor lognot max min} and isqrt (every grid value, k-bit perfect squares and their neighbours for 13 sizes k up to 200 bits, as literals and as bignum objects holding small values) x 1..3 operands (1..4 for max min) (0..4 for logand logior logxor, 60% of them drawn from a mix of small fixnums of both signs, random 64-bit fixnums, the grid, +-2^k+-j for k in 64..133, and the general integers, each position independently, so negative fixnums occur before and after the first bignum) plus, for every two-operand operator, ALL pairs of the boundary values {0,+-1,+-2,3,2^32,+-2^62,2^63-1,-2^63,2^63,-2^63-1,2^64} (thorough: of the whole grid) and for / floor ceiling truncate round mod rem gcd lcm ALL pairs from -7..7 x -4..4; plus, for every comparison operator and for max and min, every ratio of a spread of 28 positive and negative ratios (bignum numerators included; thorough: 60 random ones more) with each of the integers floor-1, floor, ceiling, ceiling+1 in both orders, as a pair and at both positions of a three-operand chain; plus 300 (thorough 3000) incf/incf/decf sequences on integer places and deltas and as many (ash fixnum shift) calls with shift in -70..70, both checked against math/big directly; plus the operands-unchanged sweep: every integer / rational function of slip out of about 110 call forms (those not defined are skipped) x ALL tuples (one operand, and all pairs) of 15 operand kinds (bignums of both signs, perfect-square bignum, bignum objects holding 0 1 5 -3, ratios of both signs with small and bignum parts, the fixnums 6 and most-negative-fixnum) bound to variables that are re-read after the call (small second operands for expt / ash / the bit-index functions), representation and value compared with before; operands drawn from the boundary grid {0,+-1,+-2,+-3,+-7,+-10,+-2^e,+-(2^e-1),+-(2^e+1) for e in 31,32,62,63,64} (40%), small integers, random 64-bit and random <=200-bit integers, ratios of those (30% for operators that take them), bignum objects holding small values, and in 55% of the cases operands derived from the first one (equal, negated, +-1, small multiples and exact quotients, multiple plus small remainder, exact half-way points, the integers around a ratio, +1/2); distinct = distinct (operator, operand representations) tuples, all non-trivial"
 	header := "From C05 Require Import Model Spec Corr.\nOpen Scope Z_scope.\n"
 	footer := "Definition res := Eval vm_compute in check_all cases.\nPrint res.\nDefinition gcount := Eval vm_compute in guard_count cases.\nPrint gcount.\nDefinition vcount := Eval vm_compute in value_guard_count cases.\nPrint vcount.\n"
 	ctx.WriteShards("cases", header, "case", footer, terms, descs, 16)
 	ctx.ReplayKnownLisp()
+}
+
+// operandsUnchanged: "never alter their operands" for EVERY integer / rational function, also those outside
+// the Coq model. The operands are objects held by variables (bignums, bignum objects with small values,
+// ratios: the mutable math/big representations, and fixnums); after the call - whatever it returned or
+// signalled - the variables must hold the same representation and value. Values are immutable in the model
+// (theorem operands_untouched), so any difference is a violation.
+func operandsUnchanged(ctx *common.Ctx) {
+	type fn struct {
+		form string // %a %b: the operand variables
+		n    int
+		sm   bool // second operand restricted to small magnitudes (exponents, shift counts, bit indexes)
+	}
+	var fns []fn
+	for _, name := range []string{"isqrt", "abs", "lognot", "1+", "1-", "-", "/", "+", "*", "signum", "numerator", "denominator",
+		"evenp", "oddp", "zerop", "plusp", "minusp", "floor", "ceiling", "truncate", "round", "ffloor", "fceiling", "ftruncate",
+		"fround", "integer-length", "logcount", "sqrt", "float", "rational", "rationalize", "gcd", "lcm", "max", "min",
+		"logand", "logior", "logxor", "logeqv", "exp", "log", "realpart", "imagpart", "conjugate", "phase", "cis", "numberp",
+		"integerp", "rationalp", "sin", "cos", "tan", "atan", "sxhash", "princ-to-string", "identity"} {
+		fns = append(fns, fn{"(" + name + " %a)", 1, false})
+	}
+	for _, name := range []string{"+", "-", "*", "/", "floor", "ceiling", "truncate", "round", "ffloor", "fceiling", "ftruncate",
+		"fround", "mod", "rem", "gcd", "lcm", "max", "min", "logand", "logior", "logxor", "logeqv", "lognand", "lognor",
+		"logandc1", "logandc2", "logorc1", "logorc2", "logtest", "=", "/=", "<", "<=", ">", ">=", "eql", "equal", "equalp",
+		"atan", "log", "complex", "float"} {
+		fns = append(fns, fn{"(" + name + " %a %b)", 2, false})
+	}
+	for _, name := range []string{"expt", "ash", "logbitp", "scale-float"} {
+		fns = append(fns, fn{"(" + name + " %a %b)", 2, true})
+	}
+	fns = append(fns, fn{"(logbitp %b %a)", 2, true},
+		fn{"(let ((p %a)) (incf p %b) (incf p %b) p)", 2, false}, fn{"(let ((p %a)) (decf p %b) (decf p %b) p)", 2, false},
+		fn{"(let ((p %a)) (incf p) (decf p) p)", 1, false}, fn{"(let ((p 1)) (incf p %a) (decf p %a) p)", 1, false},
+		fn{"(boole boole-and %a %b)", 2, false}, fn{"(boole boole-xor %a %b)", 2, false},
+		fn{"(ldb (byte 8 2) %a)", 1, false}, fn{"(format nil \"~D ~A ~X\" %a %a %a)", 1, false},
+		fn{"(coerce %a 'double-float)", 1, false}, fn{"(coerce %a 'long-float)", 1, false}, fn{"(coerce %a 'integer)", 1, false})
+	w := func(z string) string { return "(+ " + z + " 100000000000000000000 -100000000000000000000)" }
+	kinds := []string{"100000000000000000000", "-100000000000000000000", "18446744073709551616",
+		"1361129467683753853853498429727072845824", "-340282366920938463463374607431768211457",
+		w("0"), w("1"), w("5"), w("-3"), "7/3", "-7/3", "100000000000000000001/3", "-5/100000000000000000003", "6", "-9223372036854775808"}
+	smalls := []string{"0", "1", "2", "3", "-1", "-2", "64", "70", w("2"), w("3"), w("-1"), "1/2", "-3/2"}
+	scope := slip.NewScope()
+	undefined := map[string]bool{}
+	run := func(f fn, a, b string) {
+		if undefined[f.form] {
+			return
+		}
+		setup := "(setq ua " + a + ") (setq ub " + b + ")"
+		if o := common.EvalIn(scope, setup); o.Err != "" {
+			panic("operand: " + setup + ": " + o.Msg)
+		}
+		ga, da := gVal(scope.Get(slip.Symbol("ua")))
+		gb, db := gVal(scope.Get(slip.Symbol("ub")))
+		call := strings.ReplaceAll(strings.ReplaceAll(f.form, "%a", "ua"), "%b", "ub")
+		out := common.EvalTimeout(scope, call, 5*time.Second)
+		if out.Err == "undefined-function" || out.Err == "unbound-variable" || out.Err == "timeout" {
+			undefined[f.form] = true
+			ctx.Hist("unchanged:skipped-" + out.Err)
+			if out.Err == "timeout" { // the evaluation still runs in that scope
+				scope = slip.NewScope()
+			}
+			return
+		}
+		ga2, da2 := gVal(scope.Get(slip.Symbol("ua")))
+		gb2, db2 := gVal(scope.Get(slip.Symbol("ub")))
+		ctx.Meta.Evaluations++
+		ctx.Hist("unchanged:" + fmt.Sprint(f.n) + "-operand")
+		if ga != ga2 || (f.n == 2 && gb != gb2) {
+			prog := "(let ((ua " + a + ") (ub " + b + ")) (ignore-errors " + call + ") (list ua ub))"
+			ctx.Violate("an operand was altered by the call (operands bound to variables, re-read afterwards)", prog,
+				"result "+common.ShowOutcome(out)+"; operands afterwards: "+da2+" ; "+db2, "operands unchanged: "+da+" ; "+db)
+		}
+	}
+	for _, f := range fns {
+		for _, a := range kinds {
+			if f.n == 1 {
+				run(f, a, "0")
+				continue
+			}
+			bs := kinds
+			if f.sm {
+				bs = smalls
+			}
+			for _, b := range bs {
+				run(f, a, b)
+			}
+		}
+	}
 }
